@@ -47,9 +47,10 @@ class CharacterSet(IntEnum):
 
     @property
     def codec(self) -> str:
-        if self.name == "utf8mb4":
-            return "utf8"
-        return self.name
+        # MySQL's utf16 / utf32 are big endian and carry no byte order mark
+        return {"utf8mb4": "utf8", "utf16": "utf-16-be", "utf32": "utf-32-be"}.get(
+            self.name, self.name
+        )
 
     @property
     def default_collation(self) -> Collation:
